@@ -292,6 +292,18 @@ def rule_walk(ck: Check, repo: Repo) -> None:
     subset_normalisation(r, repo)
 
 
+
+def shared_decision(ck: Check, repo: Repo, rid: str) -> None:
+    """The decision table of is_path_ignored for another property that depends on the covered-file set (the name
+    languages themselves are C03-R1's business; only the meson parent language is needed to instantiate the table)."""
+    from ..relang import union
+    folder = Folder(repo)
+    impl = _regex_list(folder, "_IGNORE_MESON_PARENT_DIR_PATTERNS")
+    alpha = Alphabet([(x.pattern, x.flags) for x in impl], exclude=EXCLUDE)
+    langs = {"_IGNORE_MESON_PARENT_DIR_PATTERNS": (alpha, union(alpha, [Lang.from_regex(x.pattern, x.flags, alpha, "match") for x in impl]))}
+    rule_decision(ck, repo, langs, rid)
+
+
 def subset_normalisation(r, repo: Repo) -> None:
     """The subset is compared like with like: iter_files resolves every requested path and
     is_path_ignored tests the resolved candidate (file) / resolved directory prefix."""
